@@ -32,9 +32,15 @@ def run(P, rep, tier):
                        'That the #line state is per inclusion is decided by provenance: new_file, tokenize_file and every function that reads a file are explored '
                        'from any remembered state, and each Token/File pointer they hand to a callee or return must stem from the producing call of the same path or from a parameter, '
                        'never from a static, a global or a table (R18.8). '
+                       'That a diagnostic about a directive names the directive\'s line is decided on one generic iteration of the directive dispatcher entered on a `#` at the beginning of a line: '
+                       'helpers are summarised per known facts about their token arguments, and a diagnostic (or a token kept for a later one) that on every explored path is located at a token '
+                       'behind the end of the directive\'s line -- the continuation skip_line / copy_line hand back -- is a violation (R18.9; loops are followed for two generic iterations, '
+                       'recursion is cut, so a site reached with a token on the line only beyond those bounds would be misjudged). '
                        'Not decided: positions for all inputs end to end.')
     rep.assumptions += ['the output cursor of an in-place filter never overtakes its input cursor (reads see unmodified input)',
-                        'no token starts at a newline character', 'calloc succeeds']
+                        'no token starts at a newline character', 'calloc succeeds',
+                        'R18.9: the `#` that introduces a directive is a TK_PUNCT token; the end-of-input token lies behind the last line (read_file terminates the last line with a newline) '
+                        'and has no spelling; a token that begins a line (at_bol) and is reached from the `#` through next is on a later line']
     from .. import lib_c18b
     for rule, f, args in (('R18.1', r181, (P, tu, rep)), ('R18.2', r182, (P, tu, rep)), ('R18.3', r183, (P, tu, rep))) + lib_c18b.rest(P, rep):
         try:
